@@ -162,6 +162,27 @@ func gossipCmd(out *cq.Out, seed uint64, tier string) {
 		out.Sample(map[string]interface{}{"case": ci, "peers": npeers, "roles": nroles, "ops": hist})
 		cases = append(cases, cq.List(ops))
 	}
+	// a batch that comes back late: longer after its first arrival than any timeout of the agent's configuration
+	// (gossip redelivers through other peers at arbitrary times); it must still be recognised
+	{
+		cache := freecache.NewCache(gossip.DefaultConfig().CacheSize)
+		b := &protocol.BatchSnapshots{}
+		for j := 0; j < 7; j++ {
+			x := make([]byte, 32)
+			x[0], x[31] = 77, byte(j)
+			b.Snapshots = append(b.Snapshots, &protocol.SignedSnapshot{Snapshot: &protocol.Snapshot{EventDigest: x, HistoryDigest: x, HyperDigest: x, Version: uint64(j)}, Signature: append(make([]byte, 32), x...)})
+		}
+		first := gossip.VWasProcessedCfg(cache, b, time.Second)
+		again := gossip.VWasProcessedCfg(cache, b, time.Second)
+		time.Sleep(2300 * time.Millisecond)
+		late := gossip.VWasProcessedCfg(cache, b, time.Second)
+		out.Case("late-redelivery", true)
+		out.Count("late_redeliveries", 1)
+		if first || !again || !late {
+			out.Violate("C18:batch-processed-twice:late-redelivery", fmt.Sprintf("a batch delivered, delivered again at once and once more 2.3 s later (agent broadcast timeout 1 s) is reported as already processed = %v, %v, %v; expected false, true, true", first, again, late),
+				map[string]interface{}{"seed": seed, "broadcast_timeout_s": 1, "redelivered_after_ms": 2300})
+		}
+	}
 	f, _ := os.Create(out.Dir + "/cases.v")
 	fmt.Fprintf(f, "From Coq Require Import List NArith ZArith.\nFrom QV Require Import Gossip.Gossip Run.GossipRun.\nImport ListNotations.\nOpen Scope N_scope.\n")
 	fmt.Fprintf(f, "Definition cases : list (list gop) := %s.\n", cq.List(cases))
